@@ -744,6 +744,7 @@ registry! {
     // bytes
     ByteVec; Cow<'static, ByteSlice>; &'static ByteSlice;
     ByteArray<0>; ByteArray<1>; ByteArray<4>; ByteArray<16>; ByteArray<23>; ByteArray<24>; ByteArray<32>; ByteArray<256>;
+    ByteArray<255>; ByteArray<65535>; ByteArray<65536>; ByteArray<70000>;            // (whatever is computed from N at compile time)
     CString; Cow<'static, CStr>; &'static CStr;
     // transparent wrappers
     Wrapping<u16>; Wrapping<i64>; Cell<u32>; Cell<Option<i8>>; RefCell<String>; RefCell<Vec<u8>>; Box<u64>; Box<Vec<Option<bool>>>;
